@@ -12,7 +12,8 @@ def scratch_dir():
     if _scratch is None or not os.path.isdir(_scratch) or _scratch_pid[0] != os.getpid():
         _scratch = tempfile.mkdtemp(prefix='depccg_verif_io_')
         _scratch_pid[0] = os.getpid()
-        atexit.register(shutil.rmtree, _scratch, True)
+        from vlib import env as _env
+        _env.register_tempdir(_scratch)
     return _scratch
 
 
